@@ -44,3 +44,21 @@ impl paseto_core::paserk::IdVersion for V1 {
         hash[..33].try_into().unwrap()
     }
 }
+
+/// `rsa` 0.9 divides by `prime - 1` while it precomputes the CRT values, so a PKCS#1 structure
+/// (DER, or PEM around it) with a prime of 0 or 1 makes its decoder panic instead of returning an
+/// error. Such a structure is never a key: look at the primes before `rsa` does.
+#[cfg(feature = "signing")]
+pub(crate) fn has_trivial_prime(bytes: &[u8]) -> bool {
+    use rsa::pkcs1::der::Decode;
+
+    fn check(der: &[u8]) -> bool {
+        rsa::pkcs1::RsaPrivateKey::from_der(der).is_ok_and(|key| {
+            [key.prime1, key.prime2]
+                .iter()
+                .any(|p| matches!(p.as_bytes(), [] | [0] | [1]))
+        })
+    }
+
+    check(bytes) || rsa::pkcs1::der::pem::decode_vec(bytes).is_ok_and(|(_label, der)| check(&der))
+}
